@@ -72,27 +72,60 @@ Definition user_names (user : list symdecl) : list string := map sd_name user.
 Definition params_fresh (user : list symdecl) (df : definition) : Prop :=
   forall p, In p (df_params df) -> ~ In (fst p) (user_names user).
 
-(* faithful: a Boolean constant x0 and a unary function f over U; f's definition gets the parameter x0 and
+(* pinned: a Boolean constant x0 and a unary function f over U; f's definition gets the parameter x0 and
    passes the clash resolver unchanged *)
-Theorem formal_arg_fresh_refuted : exists user d,
-  In d user /\
-  let df := default_definition pinned d in
+Theorem formal_arg_fresh_refuted : exists user d df tbl',
+  In d user /\ default_definition pinned user d = Some (df, tbl') /\
   resolve_clashes pinned user [(d, df)] = Some [df] /\ ~ params_fresh user df.
 Proof.
   exists [usym "x0" [] B; usym "f" [U] U], (usym "f" [U] U).
-  split; [simpl; auto|]. split; [vm_compute; reflexivity|].
+  eexists. eexists. split; [simpl; auto|]. split; [vm_compute; reflexivity|]. split; [vm_compute; reflexivity|].
   intros H. apply (H ("x0", U)); vm_compute; auto.
 Qed.
 
 (* the same through ModelBuilder (a function the solver has a valuation for) *)
-Theorem formal_arg_fresh_refuted_builder : exists user d,
-  In d user /\
-  let df := fst (builder_definition pinned d 0) in
+Theorem formal_arg_fresh_refuted_builder : exists user d df u' tbl',
+  In d user /\ builder_definition pinned user d 0 = Some (df, u', tbl') /\
   resolve_clashes pinned user [(d, df)] = Some [df] /\ ~ params_fresh user df.
 Proof.
   exists [usym "x0" [] B; usym "f" [U] U], (usym "f" [U] U).
-  split; [simpl; auto|]. split; [vm_compute; reflexivity|].
+  eexists. eexists. eexists. split; [simpl; auto|]. split; [vm_compute; reflexivity|]. split; [vm_compute; reflexivity|].
   intros H. apply (H ("x0", U)); vm_compute; auto.
+Qed.
+
+(* creation (repaired): a formal parameter never overloads a symbol of the logic *)
+Definition no_overload (tbl : list symdecl) (name : string) (s : sort) : Prop :=
+  forall d, In d tbl -> sd_name d = name -> sd_nullary d = true /\ sort_eqb (sd_ret d) s = true.
+
+Lemma arg_name_free_spec : forall tbl name s, arg_name_free tbl name s = true -> no_overload tbl name s.
+Proof.
+  intros tbl name s H d Hd E. unfold arg_name_free in H. rewrite forallb_forall in H. specialize (H d Hd).
+  rewrite E, String.eqb_refl in H. simpl in H. apply andb_true_iff in H. exact H.
+Qed.
+
+Lemma next_param_free : forall tbl base s fuel num name num',
+  next_param repaired tbl base s num fuel = Some (name, num') -> no_overload tbl name s.
+Proof.
+  induction fuel; intros num name num' H; [discriminate|]. cbn [next_param v_create_any repaired orb] in H.
+  destruct (arg_name_free tbl (base ++ dec num) s) eqn:E.
+  - inversion H; subst. apply arg_name_free_spec. exact E.
+  - eapply IHfuel; eassumption.
+Qed.
+
+(* the table grows only by variables that do not overload anything present when they are created *)
+Inductive grows : list symdecl -> list symdecl -> Prop :=
+| grows_refl : forall t, grows t t
+| grows_step : forall t t' name s, no_overload t name s -> grows (var_decl name s :: t) t' -> grows t t'.
+
+Theorem creation_no_overload : forall sorts tbl base num ps n' tbl',
+  create_params repaired tbl base num sorts = Some (ps, n', tbl') -> grows tbl tbl'.
+Proof.
+  induction sorts as [|s r IH]; intros tbl base num ps n' tbl' H.
+  - inversion H; subst. constructor.
+  - cbn [create_params] in H.
+    destruct (next_param repaired tbl base s num (S (List.length tbl))) as [[name num']|] eqn:E; [|discriminate].
+    destruct (create_params repaired (var_decl name s :: tbl) base num' r) as [[[ps' n2] tbl2]|] eqn:E2; [|discriminate].
+    inversion H; subst. eapply grows_step; [eapply next_param_free; exact E|]. eapply IH; exact E2.
 Qed.
 
 Lemma clashes_repaired : forall user allp p, clashes repaired user allp p = false -> ~ In (fst p) (user_names user).
@@ -246,6 +279,43 @@ Qed.
 Theorem resolve_repaired_total : forall user fs, resolve_clashes repaired user fs <> None.
 Proof. intros user fs. unfold resolve_clashes. apply resolve_loop_total. Qed.
 
+Lemma forallb_false_exists : forall (A : Type) (p : A -> bool) l, forallb p l = false -> exists x, In x l /\ p x = false.
+Proof.
+  induction l as [|x r IH]; intros H; [discriminate|]. cbn [forallb] in H.
+  apply andb_false_iff in H as [H|H].
+  - exists x. split; [left; reflexivity|exact H].
+  - destruct (IH H) as [y [Hy Hp]]. exists y. split; [right; exact Hy|exact Hp].
+Qed.
+
+(* creation always finds a name: a candidate that is not free is the name of a symbol of the table *)
+Lemma next_param_none : forall tbl base s fuel num,
+  next_param repaired tbl base s num fuel = None -> incl (candidates base num fuel) (map sd_name tbl).
+Proof.
+  induction fuel; intros num H; [intros x []|]. cbn [next_param v_create_any repaired orb] in H.
+  destruct (arg_name_free tbl (base ++ dec num) s) eqn:E; [discriminate|].
+  intros x [Hx|Hx].
+  - subst x. unfold arg_name_free in E. apply forallb_false_exists in E as [d [Hd Hp]].
+    apply orb_false_iff in Hp as [Hn _]. apply negb_false_iff in Hn. apply String.eqb_eq in Hn.
+    apply in_map_iff. exists d. split; assumption.
+  - exact (IHfuel (S num) H x Hx).
+Qed.
+
+Lemma next_param_total : forall tbl base s num, next_param repaired tbl base s num (S (List.length tbl)) <> None.
+Proof.
+  intros tbl base s num H. apply next_param_none in H.
+  pose proof (NoDup_incl_length (candidates_NoDup base (S (List.length tbl)) num) H) as L.
+  rewrite candidates_length, map_length in L. lia.
+Qed.
+
+Theorem creation_total : forall sorts tbl base num, create_params repaired tbl base num sorts <> None.
+Proof.
+  induction sorts as [|s r IH]; intros tbl base num; [discriminate|]. cbn [create_params].
+  destruct (next_param repaired tbl base s num (S (List.length tbl))) as [[name num']|] eqn:E.
+  - destruct (create_params repaired (var_decl name s :: tbl) base num' r) as [[[ps n2] tbl2]|] eqn:E2; [discriminate|].
+    exfalso. exact (IH _ _ _ E2).
+  - exfalso. exact (next_param_total tbl base s num E).
+Qed.
+
 (* ---------------------------------------------------------------------------------------------
    C. sites whose faithful output does not read back *)
 
@@ -319,13 +389,17 @@ Theorem sort_name_repaired : forall n, legal_symbol n ->
   read_symbol std_cfg (sortToString repaired (Sort n [])) = Some n.
 Proof. intros n H. cbn [sortToString v_sort_raw repaired]. apply protect_repaired_roundtrip_std. exact H. Qed.
 
-Theorem default_definition_name_refuted :
-  read_symbol std_cfg (df_name (default_definition pinned (usym "unused fn" [U] U))) <> Some "unused fn".
-Proof. vm_compute. discriminate. Qed.
+Theorem default_definition_name_refuted : exists df tbl',
+  default_definition pinned [] (usym "unused fn" [U] U) = Some (df, tbl') /\
+  read_symbol std_cfg (df_name df) <> Some "unused fn".
+Proof. eexists. eexists. split; [vm_compute; reflexivity|]. vm_compute. discriminate. Qed.
 
-Theorem default_definition_name_repaired : forall d, legal_symbol (sd_name d) -> sd_interp d = false ->
-  read_symbol std_cfg (df_name (default_definition repaired d)) = Some (sd_name d).
+Theorem default_definition_name_repaired : forall tbl d df tbl', legal_symbol (sd_name d) -> sd_interp d = false ->
+  default_definition repaired tbl d = Some (df, tbl') ->
+  read_symbol std_cfg (df_name df) = Some (sd_name d).
 Proof.
-  intros d H Hi. cbn [default_definition df_name v_default_raw repaired]. rewrite Hi.
+  intros tbl d df tbl' H Hi E. unfold default_definition in E.
+  destruct (create_params repaired tbl (formal_base (sd_name d)) 0 (sd_args d)) as [[[ps n] t2]|]; [|discriminate].
+  inversion E; subst. cbn [df_name v_default_raw repaired]. rewrite Hi.
   apply protect_repaired_roundtrip_std. exact H.
 Qed.
